@@ -720,7 +720,7 @@ def check_view(run, exe, model, cases, scratch, fixflags="1 1"):
         first = {"p": True, "r": True}
         D = {"p": [], "r": []}
         rfq = {"r": c["restartfreq"][0], "p": c["restartfreq"][1]}
-        toks = ["u,0,0"]
+        toks = ["u,0,0"] + (["rv,0"] if c.get("late_register") else [])
         lens = set(rec["reclen"] for rec in out if rec.get("reclen"))
         if len(lens) > 1:
             run.dist("view:records-of-different-length")
@@ -741,6 +741,10 @@ def check_view(run, exe, model, cases, scratch, fixflags="1 1"):
                 mid = False
             if ev[0] == "pt":
                 toks.append("sv,%d" % (0 if rec["state_partial"] else 1))
+            if ev[0] == "pl":
+                toks.append("lv,%d" % rec["lv"])
+            if ev[0] == "pg":
+                toks.append("rv,%d" % rec["rv"])
             if ev[0] in ("ps", "rs"):
                 nt = (t[who] if t[who] is not None else 0) if first[who] else t[who] + 1
                 rel0 = first[who]
@@ -765,7 +769,9 @@ def check_view(run, exe, model, cases, scratch, fixflags="1 1"):
             elif ev[0] == "pr":
                 # the controller presents the writer's files to the reader under fixed names: for the reader a restart of
                 # the writer with a new output prefix is a restart under the same names (new names: direct mode)
-                toks += ["w,%d" % t["p"], "u,%d,0" % t["p"]]
+                # (setup_output rewrites the list file and the registry record; what the reader sees of them is still what
+                # the controller shows)
+                toks += ["w,%d" % t["p"], "u,%d,0" % t["p"], "rv,%d" % rec["rv"], "lv,%d" % rec["lv"]]
                 first["p"] = True
             elif ev[0] == "rr":
                 toks += ["o", "r"]
@@ -782,7 +788,7 @@ def check_view(run, exe, model, cases, scratch, fixflags="1 1"):
             if bool(rec.get("mid")) != mid:
                 raise V.InfraError("C14 view bookkeeping out of step with the controller at event %d of %s" % (k, c["id"]))
         mres = None
-        if not c["robust"] and reclen:
+        if reclen:
             rc, mout, err = V.run_lines(model, ["META %s %s" % (fixflags, " ".join(toks))], timeout=600)
             if rc != 0 or len(mout) != 1:
                 raise V.InfraError("C14 model driver failed: rc=%s %s" % (rc, err[-500:]))
